@@ -101,6 +101,7 @@ func cmdAsyncLoad(f hx.Flags, r *hx.Result) {
 	slowDrain(r)
 	rawToEveryRef(r)
 	emptyRawInTheMiddle(r)
+	overflowUnderDrain(r)
 	blockWaitsAsLongAsItTakes(r)
 	for run := 0; run < runs && !hx.Stopped(); run++ {
 		pi := run % 3
@@ -640,6 +641,69 @@ func blockWaitsAsLongAsItTakes(r *hx.Result) {
 	if early != 0 || cnt != 0 || nEv != 1 || nRaw != 1 || lg.GetDiscardCounter() != 0 {
 		r.Violate("block-gave-up", desc, "after 2 s of a stalled appender %d of the 2 blocked calls had returned and the discard counter was %d; in the end the event was delivered %d x, the raw write %d x, discard counter %d",
 			early, cnt, nEv, nRaw, lg.GetDiscardCounter())
+	}
+}
+
+// countingAppender only counts what it is handed.
+type countingAppender struct {
+	log.AppenderBase
+	n int64
+}
+
+func (a *countingAppender) Start() error      { return nil }
+func (a *countingAppender) Stop()             {}
+func (a *countingAppender) Append(*log.Event) { atomic.AddInt64(&a.n, 1) }
+func (a *countingAppender) Write(b []byte)    { atomic.AddInt64(&a.n, 1) }
+
+// overflowUnderDrain: the buffer is full most of the time while the worker drains it as fast as it can (an appender
+// that only counts): eight producers submit 60000 items each (events and raw writes).  Whatever the interleaving of a
+// failed non-blocking send with the worker's next receive, every item ends up delivered or counted as discarded - not
+// both, not neither.
+func overflowUnderDrain(r *hx.Result) {
+	for _, pol := range []log.BufferFullPolicy{log.BufferFullPolicyDiscard, log.BufferFullPolicyDiscardOldest} {
+		app := &countingAppender{}
+		lg := &log.AsyncLogger{
+			LoggerBase: log.LoggerBase{Level: log.LevelRange{MinLevel: log.InfoLevel, MaxLevel: log.MaxLevel}},
+			AppenderRefs: log.AppenderRefs{AppenderRefs: []*log.AppenderRef{{Appender: app,
+				Level: log.LevelRange{MinLevel: log.InfoLevel, MaxLevel: log.MaxLevel}}}},
+			BufferSize: 100, BufferFullPolicy: pol,
+		}
+		if err := lg.Start(); err != nil {
+			r.SetInfra("overflowUnderDrain: %v", err)
+			return
+		}
+		const producers, each = 8, 60000
+		var wg sync.WaitGroup
+		raw := []byte("raw item\n")
+		ok, pv := hx.Within(60*time.Second, func() {
+			for w := 0; w < producers; w++ {
+				wg.Add(1)
+				go func(w int) {
+					defer wg.Done()
+					for i := 0; i < each; i++ {
+						if (w+i)%4 == 0 {
+							lg.Write(raw)
+							continue
+						}
+						e := log.GetEvent()
+						e.Level, e.Tag = log.InfoLevel, "load"
+						lg.Append(e)
+					}
+				}(w)
+			}
+			wg.Wait()
+			lg.Stop()
+		})
+		desc := map[string]any{"policy": fmt.Sprint(pol), "producers": producers, "items_each": each, "appender": "counts only"}
+		if !ok || pv != nil {
+			r.Violate("stop-failed", desc, "producers and Stop returned=%v panic=%v", ok, pv)
+			return
+		}
+		r.Eval(producers * each)
+		delivered, discarded := atomic.LoadInt64(&app.n), lg.GetDiscardCounter()
+		if delivered+discarded != producers*each {
+			r.Violate("conservation:"+fmt.Sprint(pol), desc, "submitted %d, delivered %d, discard counter %d (sum %d)", producers*each, delivered, discarded, delivered+discarded)
+		}
 	}
 }
 
